@@ -91,7 +91,7 @@ def rule_dialect(rep: Report, rid="C05.dialect") -> None:
         except Exception as e:
             rv, tree = ("opaque", f"{type(e).__name__}: {e}"), []
         selft = ("param", "self")
-        want = ("item", ("attr", selft, "spec"), const(key))
+        want = ("item", ("attr", selft, N.DIALECT_SPEC), const(key))
         muts = [n for n, _ in nf.iter_nodes(tree) if n[0] in ("mutate", "setitem", "setattr")]
         fi = cls.find_method(prop)
         if fi is not None:
@@ -107,7 +107,7 @@ def rule_dialect(rep: Report, rid="C05.dialect") -> None:
     name = ("param", fi.params()[1])
     D = ("global", "gherkin.dialect", "DIALECTS")
     ok = rv[0] == "cond" and rv[1] == ("cmp", "In", name, D) and is_const(rv[3], None) and isinstance(I.obj(rv[2]), HInst) \
-        and st.ext.get((rv[2], "spec")) in (("item", D, name), ("cond", rv[1], ("item", D, name), ("attr", rv[2], "spec")))
+        and st.ext.get((rv[2], N.DIALECT_SPEC)) in (("item", D, name), ("cond", rv[1], ("item", D, name), ("attr", rv[2], N.DIALECT_SPEC)))
     rep.ob(rid, "Dialect.for_name(n) wraps DIALECTS[n] when n is listed and is None otherwise", ok, file=DFILE, line=fi.node.lineno, function=fi.qualname,
            expected="cls(DIALECTS[name]) if name in DIALECTS else None", found=fmt(rv, I))
     # the table is the package-local file, loaded as UTF-8 JSON
@@ -168,7 +168,7 @@ def rule_shared_table(rep: Report, rid="C15.shared") -> None:
             return False
         if t[0] == "global" and len(t) > 2 and t[2] == "DIALECTS":
             return True
-        if t[0] == "attr" and (t[2] == "spec" or t[2].endswith("_keywords")):
+        if t[0] == "attr" and (t[2] == N.DIALECT_SPEC or t[2].endswith("_keywords")):
             return True
         if t[0] in ("item", "attr", "slice", "dropnone") and isinstance(t[1], tuple):
             return rooted(t[1], depth + 1)
